@@ -59,6 +59,10 @@ def main():
         while p ** d < (1 << 30):
             rec('factor_prime_power', gmpy.factor_prime_power, (p ** d,), x=p ** d)
             d += 1
+    # large prime powers p^d (p beyond the trial-division range of factor_prime_power): only (p, d) go to TLC
+    for p in (1021, 1031, 1033, 2039, 4099, 32749):
+        for d in range(1, job.get('bigpow', 12) + 1):
+            rec('factor_prime_power_of', gmpy.factor_prime_power, (p ** d,), x=p, n=d)
     # rational reconstruction: every (n, d) in a box, several moduli, default and explicit bounds
     for y in job['ratrec_moduli']:
         for _ in range(job['nratrec']):
